@@ -525,6 +525,17 @@ pub fn mtu_probe_sacked(tier: Tier, probe_retx: usize, depth: usize) -> Driver {
     d
 }
 
+/// The same with traffic in both directions: the peer's own (larger) payloads raise the proven size
+/// while the probe is outstanding, and the application adds a short remainder - a re-cut of the
+/// probe's sequence number then comes out in another size.
+pub fn mtu_probe_sacked_bidir(tier: Tier, probe_retx: usize, depth: usize) -> Driver {
+    let mut d = mtu_probe_sacked(tier, probe_retx, depth);
+    d.name = format!("mtu-probe-sacked-bidir-retx{probe_retx}");
+    d.alphabet.push(Act::Deliver(Pkt::DataLen { off: 0, len: 640 }));
+    d.alphabet.push(Act::Write(50));
+    d
+}
+
 pub fn run_and_report(ctx: &Ctx, d: &Driver, out: &mut Outcome) {
     let r = run_driver(ctx, d);
     report(d, &r, out);
@@ -556,5 +567,6 @@ pub fn all_drivers(tier: Tier) -> Vec<Driver> {
     v.push(mtu(tier, 700, None, None, 1, 6));
     v.push(mtu_probe_sacked(tier, 0, 5));
     v.push(mtu_probe_sacked(tier, 1, 5));
+    v.push(mtu_probe_sacked_bidir(tier, 0, 5));
     v
 }
